@@ -211,7 +211,9 @@ pub fn fuzz_build(a: &HashMap<String, String>) -> i32 {
 // ---------------------------------------------------------------- C11
 
 fn gen_surface(rng: &mut Rng) -> Vec<u32> {
-    let pool: &[u32] = &[0x61, 0x62, 0x63, 0x2C, 0x22, 0x20, 0xE9, 0x6771, 0x1F600, 0x3000];
+    // letters, the CSV specials (comma, quote), blanks, multi-byte, astral - and the characters other
+    // CSV dialects give a meaning to (comment '#', ';', escape '\\', single quote), which are plain text here
+    let pool: &[u32] = &[0x61, 0x62, 0x63, 0x2C, 0x22, 0x20, 0xE9, 0x6771, 0x1F600, 0x3000, 0x23, 0x3B, 0x5C, 0x27];
     if rng.chance(1, 12) {
         return vec![];
     }
@@ -220,7 +222,7 @@ fn gen_surface(rng: &mut Rng) -> Vec<u32> {
 }
 
 fn gen_feature(rng: &mut Rng) -> String {
-    let cells = ["x", "名詞", "\"a,b\"", "\"q\"\"r\"", "", "*", " y ", "\"\""];
+    let cells = ["x", "名詞", "\"a,b\"", "\"q\"\"r\"", "", "*", " y ", "\"\"", "#c", "\\", "'"];
     let n = rng.below(4);
     let mut v: Vec<&str> = vec![];
     for _ in 0..=n {
